@@ -203,6 +203,14 @@ func (v *verdict) judgeRecords(q querySpec, a, b *answer) *viol {
 			}
 			if _, inBase := b.Recs[vid]; !inBase {
 				o.Class("dmg_event_outside_answer")
+				// The event does not satisfy the filter (it is not part of the answer on undamaged files). When the
+				// damaged file is a checksummed column file, membership was decided on bytes of a block that fails
+				// its checksum: the damaged block was served as data. (Damage to the un-checksummed side files that
+				// decide membership by themselves, .pqmr / .cmi / .bsu, stays outside the statement.)
+				if v.fc.Kind == "csg" && strings.HasPrefix(q.Name, "filter_") {
+					return violf("altered", "query %q: event _vid=%d of the damaged segment is returned although it does not satisfy the filter (it is not in the answer on undamaged files): the filter was evaluated on a checksummed column block that fails its checksum %s\n  got      %v\n  original %v",
+						q.Text, vid, errInfo(a), r, orig)
+				}
 			}
 			diff, miss := subRecord(r, orig, ign)
 			if diff != "" {
@@ -607,6 +615,9 @@ func panicSite(detail string) string {
 }
 
 func checkFault(fc *faultCase, o *pt.Obs) error {
+	if strings.HasPrefix(fc.Rel, "dataset could not be prepared: ") {
+		return pt.Inconclusivef("%s", fc.Rel) // placeholder case of casesForShard: the ingesting server failed
+	}
 	e := envOf(fc)
 	if e.err != nil {
 		return pt.Inconclusivef("dataset %d could not be prepared: %v", fc.DS, e.err)
